@@ -47,15 +47,16 @@ def mix(a, b):
     x ^= x >> 31
     return x % 1_000_000
 
-# workload seed mod 3 selects the slot: fresh AmbientSlot / process-wide shared slot / process-wide internal slot
+# workload seed mod 3 selects the slot: fresh AmbientSlot / process-wide shared slot / process-wide internal slot;
+# (workload seed / 3) mod 2 says whether a sibling slot is already initialised when the race starts
 if tier == "thorough":
-    workloads = [mix(seed, i) * 3 + i % 3 for i in range(9)]
+    workloads = [mix(seed, i) * 6 + i % 6 for i in range(12)]
     rates = ["0.02", "0.1", "0.5"]
-    nseeds = 128
+    nseeds = 96
 else:
-    workloads = [mix(seed, i) * 3 + i % 3 for i in range(3)]
+    workloads = [mix(seed, i) * 6 + i % 6 for i in range(6)]
     rates = ["0.05", "0.3"]
-    nseeds = 24
+    nseeds = 12
 
 # build once (and fail as a harness error if that does not work)
 b = subprocess.run(["cargo", "+nightly", "miri", "setup"], cwd=f"{VERIF}/slot", capture_output=True, text=True,
